@@ -118,7 +118,9 @@ var familyIdx = []int{0, 1, 2, 3, 4, 5, 6, 7}
 // negFamilyIdx: members whose hash is 2^64-2 / 2^64-1 (wrap-around probing), plus 0 and 1
 var negFamilyIdx = []int{40, 41, 42, 43, 44, 45, 46, 6, 1}
 
-var keys = []types.String{"a", "b", "", "na me"}
+// attribute names incl. ones that look like numbers (orderings that mix numeric and text
+// comparison are not total: "1"/"01", "2" < "10" < "1a" < "2")
+var keys = []types.String{"a", "b", "", "na me", "1", "01", "2", "10", "1a"}
 
 // model value
 type mval struct {
@@ -301,7 +303,7 @@ func (h *heap) step(t *verifsim.Tape) (string, *core.Violation) {
 		h.add(&live{item: item{s, mset(ms)}, sbuf: buf})
 		return fmt.Sprintf("NewSet(%d members) = %s", n, mset(ms)), nil
 	case 3, 4: // NewRecord from a map
-		n := t.Intn(4)
+		n := t.Intn(6)
 		rm := types.RecordMap{}
 		m := &mval{kind: 'R', fields: map[string]*mval{}}
 		for i := 0; i < n; i++ {
